@@ -413,6 +413,26 @@ struct FVar<'a> {
     map: AMap,
     inst: usize,
     kind: FK,
+    // bookkeeping for the evidence only
+    created_under: AMap,
+    created_on: std::thread::ThreadId,
+    entries: u32,
+}
+
+impl FVar<'_> {
+    /// Counts the shapes the statement quantifies over, as they actually happen.
+    fn note_entry(&mut self) {
+        if self.entries > 0 {
+            bump("frame-re-entered");
+        }
+        self.entries += 1;
+        if *top(self.inst) != *self.created_under {
+            bump("frame-entered-under-other-ambient-than-created");
+        }
+        if std::thread::current().id() != self.created_on {
+            bump("frame-entered-on-other-thread-than-created");
+        }
+    }
 }
 
 struct Env<'a> {
@@ -1055,10 +1075,18 @@ fn exec_op<'a>(cx: &'a Cx, op: &'a Op, env: &mut Env<'a>) -> &'static str {
                     Arc::new(m)
                 }
                 FK::Root => Arc::new(props.iter().map(|(k, v)| (k.clone(), v.text())).collect()),
-                FK::Disabled | FK::Current => visible,
+                FK::Disabled | FK::Current => visible.clone(),
             };
             let frame = create(&cx.insts[*inst], *h, *kind, props);
-            env.vars[*var] = Some(FVar { frame, map, inst: *inst, kind: *kind });
+            env.vars[*var] = Some(FVar {
+                frame,
+                map,
+                inst: *inst,
+                kind: *kind,
+                created_under: visible,
+                created_on: std::thread::current().id(),
+                entries: 0,
+            });
             bump(match kind {
                 FK::Push => "create:push",
                 FK::Root => "create:root",
@@ -1073,6 +1101,7 @@ fn exec_op<'a>(cx: &'a Cx, op: &'a Op, env: &mut Env<'a>) -> &'static str {
                 bump("ops-skipped");
                 return "after-skipped-op";
             };
+            fv.note_entry();
             each_frame!(&mut fv.frame, f => {
                 let mut g = f.enter();
                 let m = ModelScope::push(cx, fv.inst, &fv.map, fv.kind);
@@ -1091,6 +1120,7 @@ fn exec_op<'a>(cx: &'a Cx, op: &'a Op, env: &mut Env<'a>) -> &'static str {
                 bump("ops-skipped");
                 return "after-skipped-op";
             };
+            fv.note_entry();
             let (inst, kind) = (fv.inst, fv.kind);
             let map = fv.map.clone();
             each_frame!(&mut fv.frame, f => f.with(|cur| {
@@ -1105,11 +1135,12 @@ fn exec_op<'a>(cx: &'a Cx, op: &'a Op, env: &mut Env<'a>) -> &'static str {
             "after-with"
         }
         Op::Call { var, body } => {
-            let Some(fv) = env.vars[*var].take() else {
+            let Some(mut fv) = env.vars[*var].take() else {
                 bump("ops-skipped");
                 return "after-skipped-op";
             };
-            let FVar { frame, map, inst, kind } = fv;
+            fv.note_entry();
+            let FVar { frame, map, inst, kind, .. } = fv;
             each_frame!(frame, f => f.call(|| {
                 let m = ModelScope::push(cx, inst, &map, kind);
                 exec_block(cx, body, env, "inside-call");
@@ -1119,11 +1150,12 @@ fn exec_op<'a>(cx: &'a Cx, op: &'a Op, env: &mut Env<'a>) -> &'static str {
             "after-call"
         }
         Op::InFn { var, thread: false, body, .. } => {
-            let Some(fv) = env.vars[*var].take() else {
+            let Some(mut fv) = env.vars[*var].take() else {
                 bump("ops-skipped");
                 return "after-skipped-op";
             };
-            let FVar { frame, map, inst, kind } = fv;
+            fv.note_entry();
+            let FVar { frame, map, inst, kind, .. } = fv;
             each_frame!(frame, f => {
                 let func = f.in_fn(|| {
                     let m = ModelScope::push(cx, inst, &map, kind);
@@ -1145,7 +1177,7 @@ fn exec_op<'a>(cx: &'a Cx, op: &'a Op, env: &mut Env<'a>) -> &'static str {
             for v in moved {
                 child_env.vars[*v] = env.vars[*v].take();
             }
-            let FVar { frame, map, inst, kind } = fv;
+            let FVar { frame, map, inst, kind, .. } = fv;
             let back = each_frame!(frame, f => {
                 let func = f.in_fn(move || {
                     let m = ModelScope::push(cx, inst, &map, kind);
@@ -1314,7 +1346,7 @@ where
                         bump("ops-skipped");
                         continue;
                     };
-                    let FVar { frame, map, inst, kind } = fv;
+                    let FVar { frame, map, inst, kind, .. } = fv;
                     bump("enter:in_future-nested");
                     each_frame!(frame, f => {
                         f.in_future(Scoped { cx, inst, map, kind, fut: run_items(cx, body, env) }).await
@@ -1335,7 +1367,7 @@ fn build_task<'a>(cx: &'a Cx, def: &'a TaskDef, env: &mut Env<'a>) -> Option<Tas
     if !def.moved.is_empty() {
         bump("frames-moved-into-task");
     }
-    let FVar { frame, map, inst, kind } = fv;
+    let FVar { frame, map, inst, kind, .. } = fv;
     let body = &def.body;
     let inner = Scoped {
         cx,
@@ -1490,6 +1522,34 @@ fn run_program(r: &mut Report, seed: u64, index: u64, max_ops: u64, verbose: boo
     }
 }
 
+/// The very first `ThreadLocalCtxt::new()` of the process next to `ThreadLocalCtxt::shared()`:
+/// the boundary of the id allocation that keeps instances apart.
+fn prelude(r: &mut Report) {
+    let first = ThreadLocalCtxt::new();
+    let shared = ThreadLocalCtxt::shared();
+    let empty = Map::new();
+    for (name, entered, other) in [("shared-entered", shared, first), ("first-new-entered", first, shared)] {
+        r.eval();
+        r.observe("prelude-isolation-checks", 1);
+        let mut f = Frame::push(entered, ("k0", 1));
+        let (inside, seen_by_other) = {
+            let _g = f.enter();
+            (entered.with_current(|p| to_map(p)), other.with_current(|p| to_map(p)))
+        };
+        let after = (entered.with_current(|p| to_map(p)), other.with_current(|p| to_map(p)));
+        if seen_by_other != empty || after.0 != empty || after.1 != empty || inside.len() != 1 {
+            r.violation(
+                &format!("C03:first-new-instance-next-to-shared:{}", name),
+                &format!(
+                    "first ThreadLocalCtxt::new() of the process vs shared(): inside the frame the entered instance shows {:?}, the other instance shows {:?}; after exit they show {:?} / {:?}",
+                    inside, seen_by_other, after.0, after.1
+                ),
+                json!({"prelude": name}),
+            );
+        }
+    }
+}
+
 fn main() {
     let args = Args::parse();
     let mut r = Report::new(
@@ -1500,6 +1560,7 @@ fn main() {
          (future suspended between polls, frame or future moved to another thread, or panic unwinding through frames)",
     );
     let max_ops = args.get_u64("max-ops", 60);
+    prelude(&mut r);
 
     r.set(
         "frame_payload_bytes",
